@@ -10,6 +10,7 @@ import (
 	gotoken "go/token"
 	"os"
 	"path/filepath"
+	"regexp"
 	"runtime/debug"
 	"sort"
 	"strings"
@@ -46,6 +47,7 @@ type info struct {
 	nodes    int
 	checked  int
 	reparsed int
+	skipped  int
 }
 
 // ---- tokenisation ---------------------------------------------------------------------------
@@ -472,6 +474,12 @@ func reparsable(x ast.Expr, parent goast.Node, field string) bool {
 
 func (c *checker) reparse(x ast.Expr, s span) {
 	text := string(c.src[s.pos:s.end])
+	if ellipsisNewline.MatchString(text) {
+		// the scanner ends a statement at `...` + newline only outside parentheses: the same text
+		// can tokenise differently on its own and inside the parentheses it came from
+		c.in.skipped++
+		return
+	}
 	c.in.reparsed++
 	kind := astx.TypeName(x)
 	y, err := func() (y ast.Expr, err error) {
@@ -499,6 +507,8 @@ func (c *checker) reparse(x ast.Expr, s span) {
 	}
 }
 
+var ellipsisNewline = regexp.MustCompile(`\.\.\.[ \t]*(//[^\n]*|/\*[^\n]*\*/[ \t]*)?\r?\n`)
+
 // parseInContext parses the source text of an expression on its own: ParseExpr for what is an
 // expression anywhere; the three expression kinds that only exist in a context are parsed in the
 // smallest such context (a range expression as the container of a for-phrase, a matrix literal
@@ -515,7 +525,9 @@ func parseInContext(x ast.Expr, text string) (ast.Expr, error) {
 		}
 		return y, nil
 	case *ast.MatrixLit:
-		y, err := parser.ParseExpr("_(" + text + ")")
+		// as the argument of a command-style call (not inside parentheses: the scanner ends a
+		// matrix row at `...` + newline only outside parentheses)
+		y, err := parseStmtExpr("_ " + text)
 		if err != nil {
 			return nil, err
 		}
@@ -525,21 +537,26 @@ func parseInContext(x ast.Expr, text string) (ast.Expr, error) {
 		return y, nil
 	case *ast.CallExpr:
 		if v.IsCommand() {
-			f, err := parser.ParseFile(gotoken.NewFileSet(), "stmt.xgo", "func _() {\n"+text+"\n}\n", 0)
-			if err != nil {
-				return nil, err
-			}
-			if len(f.Decls) == 1 {
-				if fd, ok := f.Decls[0].(*ast.FuncDecl); ok && fd.Body != nil && len(fd.Body.List) == 1 {
-					if es, ok := fd.Body.List[0].(*ast.ExprStmt); ok {
-						return es.X, nil
-					}
-				}
-			}
-			return nil, fmt.Errorf("the text of a command-style call does not parse as one expression statement")
+			return parseStmtExpr(text)
 		}
 	}
 	return parser.ParseExpr(text)
+}
+
+// parseStmtExpr parses text as the only statement of a function body and returns its expression.
+func parseStmtExpr(text string) (ast.Expr, error) {
+	f, err := parser.ParseFile(gotoken.NewFileSet(), "stmt.xgo", "func _() {\n"+text+"\n}\n", 0)
+	if err != nil {
+		return nil, err
+	}
+	if len(f.Decls) == 1 {
+		if fd, ok := f.Decls[0].(*ast.FuncDecl); ok && fd.Body != nil && len(fd.Body.List) == 1 {
+			if es, ok := fd.Body.List[0].(*ast.ExprStmt); ok {
+				return es.X, nil
+			}
+		}
+	}
+	return nil, fmt.Errorf("the text does not parse as one expression statement")
 }
 
 func firstLine(s string) string {
@@ -591,6 +608,9 @@ func (c *checker) file(f *ast.File) {
 	if !c.ts.ends[s.end] && len(f.Decls) > 0 {
 		last := f.Decls[len(f.Decls)-1]
 		if fd, ok := last.(*ast.FuncDecl); ok && fd.Shadow {
+			if fd.Body != nil && len(fd.Body.List) > 0 && c.badEnd[fd.Body.List[len(fd.Body.List)-1]] && c.lastStmtEnd(fd) == s.end {
+				return // inherited from the last statement, reported there
+			}
 			c.vs.add(vk.Bad("end:File-shadow-entry", "File.End()=%d is not just after the last token of the file (last statement of the shadow entry ends at %d, file size %d)", s.end, c.lastStmtEnd(fd), c.size))
 		} else if !c.badEnd[last] {
 			c.vs.add(vk.Bad("end:File", "File.End()=%d is not just after a token", s.end))
@@ -653,6 +673,7 @@ func run(t failer, c Case, class string) {
 	vk.R.Add("nodes", int64(in.nodes))
 	vk.R.Add("nodes_with_checked_span", int64(in.checked))
 	vk.R.Add("expressions_reparsed", int64(in.reparsed))
+	vk.R.Add("reparse_skipped_ellipsis_newline", int64(in.skipped))
 	if xgo && len(c.Src) < 300 {
 		vk.R.Sample(string(c.Src))
 	}
